@@ -32,7 +32,7 @@ def units(tier):
     us.append(clientrun.unit("parse_ignores_checksum_when_not_validating", clientrun.lemma_validate_off))
     from spec import api
     from props.common import ground_unit as _gu
-    us.append(_gu("api.signatures", api.signature_lemmas(['pyrtcm.rtcmreader.RTCMReader.parse', 'pyrtcm.rtcmhelpers.calc_crc24q'])))
+    us.append(_gu("api.signatures", api.signature_lemmas(['pyrtcm.rtcmreader.RTCMReader.parse', 'pyrtcm.rtcmhelpers.calc_crc24q', 'pyrtcm.rtcmmessage.RTCMMessage.__init__'])))
     return us
 
 
